@@ -189,6 +189,19 @@ fn gen_config(rng: &mut Rng) -> (WebAnnoConfig, String) {
         c.default_set_iri = "https://example.org/set".into();
         name.push("prefixes");
     }
+    if name.is_empty() && rng.chance(1, 4) {
+        // the empty prefix is documented to mean blank nodes, like the default "_:"
+        if rng.chance(1, 2) {
+            c.default_resource_iri = String::new();
+        }
+        if rng.chance(1, 2) {
+            c.default_annotation_iri = String::new();
+        }
+        if rng.chance(1, 2) {
+            c.default_set_iri = String::new();
+        }
+        name.push("empty-prefixes");
+    }
     if rng.chance(1, 4) {
         c.extra_context = vec!["\"https://example.org/ctx.jsonld\"".to_string()];
         name.push("extra-context");
